@@ -80,6 +80,13 @@ PROPS = {
                 real=["tlx/container/lru_cache.hpp", "tlx/container/splay_tree.hpp"],
                 stub=["allocator (sim::Alloc as the Alloc/Allocator argument: list nodes, hash nodes and buckets, splay nodes): seeded recycling, poisoning, quarantine, canaries, ledger",
                       "key type (lifetime ledger, heap-owning) for the splay tree"]),
+    "C02": dict(harness="c02_btree", concurrent=True, single_task=True,
+                runs=dict(quick=dict(plain=60000, asan=12000),
+                          thorough=dict(plain=1200000, asan=240000)),
+                real=["tlx/container/btree.hpp", "tlx/container/btree_set.hpp", "tlx/container/btree_multiset.hpp",
+                      "tlx/container/btree_map.hpp", "tlx/container/btree_multimap.hpp", "tlx/die/core.cpp"],
+                stub=["allocator (sim::Alloc as the Allocator argument, rebound to leaf and inner node types): seeded recycling, poisoning, quarantine, canaries, ledger",
+                      "element types (lifetime ledger, heap-owning keys and mapped values)"]),
 }
 
 SIM_NAMES = ["strategy", "param", "pct_k", "spurious_permille", "spurious_budget", "notify_choice",
